@@ -5,6 +5,7 @@ all logged at the boundary into one History; an offline checker decides the
 completion protocol.
 """
 
+import gc
 import threading
 import time
 
@@ -29,7 +30,8 @@ def gen_scenario(rng):
     for _ in range(rng.choice([0, 1, 1, 2, 2, 3])):
         sc["regs"].append({"delay_ms": rng.choice([0, 0, 0.1, 0.5, 1, 2, 4]),
                            "cb": rng.choice(["ok", "ok", "ok", "raises", "arity0", "arity1", "raises-base"]),
-                           "shape": rng.choice(["function", "function", "partial", "nameless"])})
+                           "shape": rng.choice(["function", "function", "partial", "nameless", "temp-method",
+                                                "kept-method"])})
     for _ in range(rng.choice([0, 1, 1, 2])):
         ops = []
         for _ in range(rng.randint(1, 4)):
@@ -45,6 +47,14 @@ def gen_scenario(rng):
 
 
 FALSY = [None, 0, False, "", []]
+
+
+class _Listener(object):
+    def __init__(self, fn):
+        self.fn = fn
+
+    def on_done(self, *args, **kwargs):
+        return self.fn(*args, **kwargs)
 
 
 class _Nameless(object):
@@ -143,6 +153,14 @@ class FutureRun(object):
                 cb = functools.partial(cb)
             elif shape == "nameless":
                 cb = _Nameless(cb)
+            elif shape == "temp-method":
+                # a bound method of an object nobody else references: future.set_callback(Listener().on_done, x)
+                cb = _Listener(cb).on_done
+                gc.collect()
+            elif shape == "kept-method":
+                self.keep = getattr(self, "keep", [])
+                self.keep.append(_Listener(cb))
+                cb = self.keep[-1].on_done
             c = h.ev("reg_call", reg=i, cb=reg["cb"])
             try:
                 fut.set_callback(cb, self.extras[i])
